@@ -601,7 +601,9 @@ class SqueezeOperator(LinearOperator):
         for d in self._domain:
             if d.shape == (1,):  # Trivially removable
                 ta.append(ax)
-            elif aggressive and isinstance(d, (UnstructuredDomain, RGSpace)):  # Agressively removable
+            elif aggressive and isinstance(d, RGSpace) and all(ss == 1 for ss in d.shape):
+                ta.extend(range(ax, ax+len(d.shape)))
+            elif aggressive and isinstance(d, (UnstructuredDomain, RGSpace)) and 1 in d.shape:  # Agressively removable
                 shp, dst = [], []
                 for ii, ss in enumerate(d.shape):
                     if ss == 1:
